@@ -54,7 +54,7 @@ v("C09", "stop-with-context-ignores-timeout-option", KV, "\ttimeout := opts.Time
 v("C04", "skip-id-comparison", KV, "\tif leaderID != e.cfg.InstanceID {", "\tif false && leaderID != e.cfg.InstanceID {", ["C04-R1"], "validation no longer compares the record's id")
 v("C04", "decode-error-counts-as-valid", KV, "if err := json.Unmarshal(entry.Value(), &payload); err != nil {\n\t\treturn false, err\n\t}\n\n\tkvTokenInterface",
   "if err := json.Unmarshal(entry.Value(), &payload); err != nil {\n\t\treturn true, nil\n\t}\n\n\tkvTokenInterface", ["C04-R1"], "an undecodable record validates")
-v("C04", "ordemote-does-not-demote", KV, "\t\tif e.IsLeader() {\n\t\t\te.handleValidationFailure(err)\n\t\t}\n\t\treturn false", "\t\treturn false",
+v("C04", "ordemote-does-not-demote", KV, "\t\tif e.IsLeader() {\n\t\t\te.handleValidationFailure(nil, err)\n\t\t}\n\t\treturn false", "\t\treturn false",
   ["C04-R4"], "ValidateTokenOrDemote returns false without demoting")
 v("C04", "validate-without-leader-check", KV, "\tif !e.IsLeader() {\n\t\treturn false, ErrNotLeader\n\t}\n\n\treturn e.validateToken(ctx)", "\treturn e.validateToken(ctx)",
   ["C04-R2"], "ValidateToken validates for non-leaders")
@@ -74,12 +74,12 @@ v("C06", "read-error-ignored-by-periodic-check", W, "\t\te.startAcquireRound(ctx
 # ---- C07
 v("C07", "watcher-ignores-revision", W, "if newLeaderID != e.cfg.InstanceID && entry.Revision() > e.revision.Load() {", "if newLeaderID != e.cfg.InstanceID {",
   ["C07-R1"], "a late event naming another instance demotes a leader whatever its revision")
-v("C07", "retry-exhaustion-demotes", KV, "\t\t\te.stayFollower()\n\t\t\treturn\n\t\t}\n\n\t\tfinalBackoff", "\t\t\te.becomeFollower()\n\t\t\treturn\n\t\t}\n\n\t\tfinalBackoff",
+v("C07", "retry-exhaustion-demotes", KV, "\t\t\te.stayFollower()\n\t\t\treturn\n\t\t}\n\n\t\tfinalBackoff", "\t\t\te.becomeFollower(nil)\n\t\t\treturn\n\t\t}\n\n\t\tfinalBackoff",
   ["C07-R1"], "an exhausted acquisition round demotes the instance even if it leads")
 v("C07", "ttl-margin-two-intervals", VA, "minTTL := cfg.HeartbeatInterval * 3", "minTTL := cfg.HeartbeatInterval * 2", ["C07-R3"], "validation accepts TTL = 2 x heartbeat")
 # ---- C08
-v("C08", "notify-without-result", KV, "\tif !e.becomeFollower() {\n\t\treturn\n\t}\n", "\te.becomeFollower()\n", ["C08-R3"], "demote() notifies even if it did not end a term")
-v("C08", "watcher-demotes-silently", W, "e.demote(\"leadership_lost_via_watcher\")", "e.becomeFollower()", ["C08-R2"], "preemption seen by the watcher demotes without OnDemote")
+v("C08", "notify-without-result", KV, "\tif !e.becomeFollower(term) {\n\t\treturn\n\t}\n", "\te.becomeFollower(term)\n", ["C08-R3"], "demote() notifies even if it did not end a term")
+v("C08", "watcher-demotes-silently", W, "e.demote(\"leadership_lost_via_watcher\")", "e.becomeFollower(nil)", ["C08-R2"], "preemption seen by the watcher demotes without OnDemote")
 v("C08", "promote-before-claim", KV, "\te.state.Store(StateLeader)\n\te.isLeader.Store(true)\n", "\te.state.Store(StateLeader)\n",
   ["C08-R1", "C02-R4"], "the claim is never set although OnPromote runs")
 # ---- C09
@@ -152,7 +152,7 @@ v("C18", "claim-store-outside-mutex", CN, "\tif e.isLeader.Load() {\n\t\tlog := 
 # ---- rules added after the second seeding round
 v("C03", "loops-on-election-context", KV, "\t\te.heartbeatLoop(termCtx)", "\t\te.heartbeatLoop(ctx)", ["C03-R9"], "the heartbeat loop runs on the election's context and outlives its term")
 v("C12", "validation-loop-on-election-context", KV, "\t\te.validationLoop(termCtx)", "\t\te.validationLoop(ctx)", ["C12-R6"], "the validation loop runs on the election's context and outlives its term")
-v("C03", "context-end-keeps-claim", HB, "func (e *kvElection) handleHeartbeatContextDone() {\n\te.demote(\"context_cancelled\")\n}", "func (e *kvElection) handleHeartbeatContextDone() {\n}", ["C03-R4"], "a cancelled Start context ends the heartbeat loop but leaves the claim")
+v("C03", "context-end-keeps-claim", HB, "func (e *kvElection) handleHeartbeatContextDone(ctx context.Context) {\n\te.demoteTerm(ctx, \"context_cancelled\")\n}", "func (e *kvElection) handleHeartbeatContextDone(ctx context.Context) {\n}", ["C03-R4"], "a cancelled Start context ends the heartbeat loop but leaves the claim")
 v("C03", "diagnostic-get-inline", HB, "\t\t\t\t\t\te.wg.Add(1)\n\t\t\t\t\t\tgo func() {\n\t\t\t\t\t\t\tdefer e.wg.Done()\n\t\t\t\t\t\t\te.logTakeover(ctx)\n\t\t\t\t\t\t}()", "\t\t\t\t\t\te.logTakeover(ctx)", ["C03-R10"], "the heartbeat loop reads the store synchronously")
 v("C17", "nan-blind-clamp", RT, "\tif !(backoff <= float64(cfg.MaxBackoff)) {", "\tif backoff > float64(cfg.MaxBackoff) {", ["C17-R4"], "the cap lets NaN (0 * +Inf) through to the conversion")
 v("C17", "clamp-by-builtin-min", RT, "\tif !(backoff <= float64(cfg.MaxBackoff)) {\n\t\tbackoff = float64(cfg.MaxBackoff)\n\t}", "\tbackoff = min(backoff, float64(cfg.MaxBackoff))", ["C17-R4"], "the builtin min propagates NaN")
@@ -160,7 +160,7 @@ v("C17", "negative-limit-unbounded", RT, "\tif cfg.MaxAttempts < 0 {\n\t\treturn
 v("C10", "takeover-decision-memoised", W, "\tif e.cfg.AllowPriorityTakeover && e.cfg.Priority > payload.Priority {\n", "\tif e.cfg.AllowPriorityTakeover && e.cfg.Priority > payload.Priority && e.lastTransition.Load() != nil && time.Since(e.lastTransition.Load().(time.Time)) > time.Second {\n", ["C10-R5"], "the watch-triggered takeover attempt is rate limited by unrelated state")
 v("C14", "adapter-get-swallows-error", EL, "\tnatsEntry, err := a.kv.Get(key)\n\tif err != nil {\n\t\treturn nil, err\n\t}", "\tnatsEntry, err := a.kv.Get(key)\n\tif err != nil {\n\t\treturn nil, nil\n\t}", ["C14-R2"], "the adapter's Get turns a store error into 'no value'")
 v("C06", "watch-retry-backoff", W, "\t\tcase <-time.After(watchRetryInterval):", "\t\tcase <-time.After(watchRetryInterval * time.Duration(1+e.healthFailureCount.Load())):", ["C06-R2"], "the pause before the next existence check is computed and can grow")
-v("C03", "result-channel-shared", HB, "\t\t\tresultChan := make(chan updateResult, 1)\n", "", ["C03-R1"], "one result channel is shared by all refresh attempts", also=[("\tfor {\n\t\tselect {\n\t\tcase <-ctx.Done():\n\t\t\te.handleHeartbeatContextDone()", "\ttype updateResult struct {\n\t\trev uint64\n\t\terr error\n\t}\n\tresultChan := make(chan updateResult, 1)\n\tfor {\n\t\tselect {\n\t\tcase <-ctx.Done():\n\t\t\te.handleHeartbeatContextDone()"), ("\t\t\ttype updateResult struct {\n\t\t\t\trev uint64\n\t\t\t\terr error\n\t\t\t}\n", "")])
+v("C03", "result-channel-shared", HB, "\t\t\tresultChan := make(chan updateResult, 1)\n", "", ["C03-R1"], "one result channel is shared by all refresh attempts", also=[("\tfor {\n\t\tselect {\n\t\tcase <-ctx.Done():\n\t\t\te.handleHeartbeatContextDone(ctx)", "\ttype updateResult struct {\n\t\trev uint64\n\t\terr error\n\t}\n\tresultChan := make(chan updateResult, 1)\n\tfor {\n\t\tselect {\n\t\tcase <-ctx.Done():\n\t\t\te.handleHeartbeatContextDone(ctx)"), ("\t\t\ttype updateResult struct {\n\t\t\t\trev uint64\n\t\t\t\terr error\n\t\t\t}\n", "")])
 v("C06", "no-check-at-watch-establishment", W, "\tif !e.IsLeader() {\n\t\te.checkKeyAndReelect(ctx)\n\t}\n\n\tfor {\n\t\tselect {\n\t\tcase <-ctx.Done():\n\t\t\treturn\n\t\tcase entry, ok := <-watcher.Updates():", "\tfor {\n\t\tselect {\n\t\tcase <-ctx.Done():\n\t\t\treturn\n\t\tcase entry, ok := <-watcher.Updates():", ["C06-R2"], "two periods between existence checks around a watch re-establishment")
 v("C07", "validation-timeout-fixed", FE, "\tif half := e.cfg.HeartbeatInterval / 2; half > validationTimeout {\n\t\tvalidationTimeout = half\n\t}\n", "", ["C07-R7"], "the background validation read times out after a fixed 2 s")
 v("C08", "demotion-result-lost", KV, "\tif ctx := e.ctx; ctx != nil && !e.watcherRunning.Load() {", "\tif e.ctx == nil {\n\t\treturn false\n\t}\n\tif ctx := e.ctx; ctx != nil && !e.watcherRunning.Load() {", ["C08-R2"], "enterFollowerState returns false after it cleared a standing claim")
@@ -177,7 +177,7 @@ v("C07", "revision-published-after-claim", KV, "\te.revision.Store(rev)\n\tnow :
 v("C17", "convert-before-clamp", RT, "\tbackoff := float64(cfg.InitialBackoff) * math.Pow(cfg.BackoffMultiplier, float64(attempt))\n", "\tbackoff := float64(time.Duration(float64(cfg.InitialBackoff) * math.Pow(cfg.BackoffMultiplier, float64(attempt))))\n", ["C17-R4"], "the exponential term is converted to an integer duration before the clamp (seed C17-1 on the current tree)")
 v("C08", "stop-returns-before-ondemote", KV, "\tif wasLeader && hasOnDemote {\n\t\tlog := e.getLogger()\n\t\tlog.Info(\"leader_demoted\",\n\t\t\tappend(e.logWithContext(ctx),\n\t\t\t\tzap.String(\"reason\", \"stop_with_context\"),", "\tif opts.DeleteKey && !opts.WaitForDemote {\n\t\treturn nil\n\t}\n\tif wasLeader && hasOnDemote {\n\t\tlog := e.getLogger()\n\t\tlog.Info(\"leader_demoted\",\n\t\t\tappend(e.logWithContext(ctx),\n\t\t\t\tzap.String(\"reason\", \"stop_with_context\"),", ["C08-R2"], "an early successful return of StopWithContext skips OnDemote (seed C08-2 on the current tree)")
 # ---- C19
-v("C19", "demotion-does-not-cancel", KV, "\tif e.termCancel != nil {\n\t\te.termCancel()\n\t\te.termCancel = nil\n\t}\n", "", ["C19-R1"], "demotion no longer cancels the term context")
+v("C19", "demotion-does-not-cancel", KV, "\tif e.termCancel != nil {\n\t\te.termCancel()\n\t\te.termCancel = nil\n\t\te.termCtx = nil\n\t}\n", "\te.termCancel, e.termCtx = nil, nil\n", ["C19-R1"], "demotion no longer cancels the term context")
 v("C19", "promotion-context-from-background", KV, "promoteCtx, cancel := context.WithCancel(termCtx)", "_ = termCtx\n\t\t\tpromoteCtx, cancel := context.WithCancel(context.Background())", ["C19-R1"], "the promotion context is detached from the term")
 v("C19", "term-cancelled-by-heartbeat", HB, "\t\t\tif !stillLeader {\n\t\t\t\treturn\n\t\t\t}\n", "\t\t\tif !stillLeader {\n\t\t\t\treturn\n\t\t\t}\n\t\t\tif e.termCancel != nil && consecutiveFailures > 1 {\n\t\t\t\te.termCancel()\n\t\t\t}\n",
   ["C19-R2", "C20-R1"], "the heartbeat loop cancels the term context while the instance still leads")
@@ -193,6 +193,27 @@ def run(cmd, cwd=None, check=True):
     if check and r.returncode != 0:
         raise RuntimeError("%s failed: %s %s" % (cmd, r.stdout[-2000:], r.stderr[-2000:]))
     return r
+
+
+# ---- round 3
+v("C03", "context-end-demotes-only-if-election-ended", HB, "func (e *kvElection) handleHeartbeatContextDone(ctx context.Context) {\n\te.demoteTerm(ctx, \"context_cancelled\")\n}", "func (e *kvElection) handleHeartbeatContextDone(ctx context.Context) {\n\te.mu.RLock()\n\trunning := e.ctx != nil && e.ctx.Err() == nil\n\te.mu.RUnlock()\n\tif running {\n\t\treturn\n\t}\n\te.demoteTerm(ctx, \"context_cancelled\")\n}", ["C03-R4"], "the loop's final demotion is skipped while the election context is live: cancel + Start again leaves the claim without heartbeats")
+v("C03", "ticker-reset-after-attempt", HB, "\t\t\theartbeatStartTime := time.Now()\n\t\t\tif updateErr != nil {", "\t\t\tticker.Reset(e.cfg.HeartbeatInterval)\n\t\t\theartbeatStartTime := time.Now()\n\t\t\tif updateErr != nil {", ["C03-R8", "C07-R5"], "attempts start one interval after the END of the previous attempt")
+v("C07", "heartbeat-failure-demotion-unbound", HB, "\te.demoteTerm(ctx, \"heartbeat_failure\")", "\te.demote(\"heartbeat_failure\")", ["C07-R9", "C12-R7"], "a heartbeat loop that outlived its term demotes the next term")
+v("C07", "validation-demotion-unbound", FE, "\t\t\t\te.handleValidationFailure(ctx, ErrTokenInvalid)", "\t\t\t\te.handleValidationFailure(nil, ErrTokenInvalid)", ["C07-R9", "C12-R7"], "a validation loop that outlived its term demotes the next term")
+v("C07", "term-identity-test-dropped", KV, "\tif term != nil && e.termCtx != term {\n\t\treturn false\n\t}\n", "", ["C07-R9", "C12-R7"], "demotions bound to a term are no longer compared with the current term")
+v("C12", "stale-health-result-counted", HB, "\t\t\t\tif ctx.Err() != nil {\n\t\t\t\t\tcontinue\n\t\t\t\t}\n\t\t\t\tif !healthy {", "\t\t\t\tif !healthy {", ["C12-R8"], "the result of a health check that outlasted the term is counted against the next term")
+v("C12", "acquisition-gated-by-health-count", KV, "func (e *kvElection) attemptAcquire() error {\n", "func (e *kvElection) attemptAcquire() error {\n\tif e.cfg.HealthChecker != nil && e.healthFailureCount.Load() >= 3 {\n\t\treturn ErrNotLeader\n\t}\n", ["C12-R9"], "a follower demoted for health reasons never campaigns again")
+v("C06", "round-flag-not-cleared-on-cancel", KV, "func (e *kvElection) startAcquireRound(ctx context.Context) {\n", "func (e *kvElection) startAcquireRound(ctx context.Context) {\n\tif !e.watcherRunning.CompareAndSwap(true, true) && !e.deleteKeyOnStop.CompareAndSwap(false, false) {\n\t\treturn\n\t}\n", ["C06-R6"], "an atomic flag that is never cleared by the round decides whether a round starts")
+v("C09", "reconnect-samples-claim-before-lock", CN, "func (e *kvElection) handleReconnect() {\n\te.mu.Lock()\n\tdefer e.mu.Unlock()\n", "func (e *kvElection) handleReconnect() {\n\twasLeader := e.isLeader.Load()\n\te.mu.Lock()\n\tdefer e.mu.Unlock()\n", ["C09-R9"], "the reconnect verification is started on a claim read before the mutex: after a Stop in between", also=[("\tif !e.isLeader.Load() {\n\t\treturn\n\t}\n\n\tlog.Info(\"verifying_leadership_after_reconnect\"", "\tif !wasLeader {\n\t\treturn\n\t}\n\n\tlog.Info(\"verifying_leadership_after_reconnect\"")])
+v("C11", "reconnect-as-follower-keeps-timer", CN, "\tif e.disconnectHandler != nil {\n\t\te.disconnectHandler.stop()\n\t}\n\n\tif !e.isLeader.Load() {\n\t\treturn\n\t}\n\n\tlog.Info(\"verifying_leadership_after_reconnect\"", "\tif !e.isLeader.Load() {\n\t\treturn\n\t}\n\n\tif e.disconnectHandler != nil {\n\t\te.disconnectHandler.stop()\n\t}\n\n\tlog.Info(\"verifying_leadership_after_reconnect\"", ["C11-R4"], "a reconnect notification received as follower does not cancel the pending expiry")
+v("C11", "verification-success-cancels-timer", CN, "\tlog.Info(\"reconnect_verification_success\",", "\tif e.disconnectHandler != nil {\n\t\te.disconnectHandler.stop()\n\t}\n\tlog.Info(\"reconnect_verification_success\",", ["C11-R4"], "the asynchronous verification cancels whatever expiry is pending when it ends, also a newer disconnect's")
+v("C14", "watch-wrapper-reused", EL, "\t\t\tfor natsEntry := range a.watcher.Updates() {\n\t\t\t\tvar entry Entry\n\t\t\t\tif natsEntry != nil {\n\t\t\t\t\tentry = &natsEntryAdapter{entry: natsEntry}\n\t\t\t\t}", "\t\t\twrapped := &natsEntryAdapter{}\n\t\t\tfor natsEntry := range a.watcher.Updates() {\n\t\t\t\tvar entry Entry\n\t\t\t\tif natsEntry != nil {\n\t\t\t\t\twrapped.entry = natsEntry\n\t\t\t\t\tentry = wrapped\n\t\t\t\t}", ["C14-R3"], "one entry wrapper is refilled for every watch event")
+v("C15", "adapter-error-names-the-key", EL, "func (a *natsKeyValueAdapter) Delete(key string) error {\n\treturn a.kv.Delete(key)\n}", "func (a *natsKeyValueAdapter) Delete(key string) error {\n\tif err := a.kv.Delete(key); err != nil {\n\t\treturn NewElectionError(\"kv_delete\", key, \"delete failed\", err)\n\t}\n\treturn nil\n}", ["C15-R5", "C14-R2"], "the adapter adds the key (the group name) to the client's error text")
+
+v("C12", "health-demotion-unbound", HB, "\te.demoteTerm(ctx, \"health_check_failure\")", "\te.demote(\"health_check_failure\")", ["C12-R7"], "a health demotion issued by a loop that outlived its term ends the next term")
+v("C15", "adapter-error-wrapped-with-operation", EL, "\tnatsEntry, err := a.kv.Get(key)\n\tif err != nil {\n\t\treturn nil, err\n\t}", "\tnatsEntry, err := a.kv.Get(key)\n\tif err != nil {\n\t\treturn nil, NewElectionError(\"kv_get\", key, \"get failed\", err)\n\t}", ["C15-R5"], "the adapter wraps the client's error with the key")
+
+v("C02", "context-end-demotes-only-if-election-ended", HB, "func (e *kvElection) handleHeartbeatContextDone(ctx context.Context) {\n\te.demoteTerm(ctx, \"context_cancelled\")\n}", "func (e *kvElection) handleHeartbeatContextDone(ctx context.Context) {\n\te.mu.RLock()\n\trunning := e.ctx != nil && e.ctx.Err() == nil\n\te.mu.RUnlock()\n\tif running {\n\t\treturn\n\t}\n\te.demoteTerm(ctx, \"context_cancelled\")\n}", ["C02-R6"], "the loop's final demotion is skipped while the election context is live: a claim without heartbeats after cancel + Start")
 
 def main():
     only = set(sys.argv[1:])
